@@ -214,6 +214,37 @@ pub fn judge(ctx: &mut Ctx, index: u64, bytes: &[u8], rt: &RoundTrip, what: &str
             ctx.known("D11-scroll-speed-below-0.1", "taiko/mania scroll speed below 0.1 comes back as 0.1 (written through the slider-velocity clamp)".into());
         }
     }
+    // D18: control points closer than f64::EPSILON are regrouped when their lines become adjacent
+    if cmp::has_times_closer_than_epsilon(&rt.m1.control_points) {
+        let before = diffs.len();
+        diffs.retain(|d| !(d == "timing_points" || d.starts_with("timeline:")));
+        if diffs.len() != before {
+            ctx.known("D18-timing-points-closer-than-epsilon", "control points whose times differ by less than f64::EPSILON (only next to time zero) are regrouped by the decoder's same-time grouping once their lines are adjacent".into());
+        }
+        if diffs.is_empty() {
+            return true;
+        }
+    }
+    // D21: the encoder writes slider nodes with their banks only; a custom sample file given in the per-node field is dropped
+    {
+        let before = diffs.len();
+        diffs.retain(|d| {
+            if let Some(rest) = d.strip_prefix("object[") {
+                if let Some((i, field)) = rest.split_once("]:") {
+                    if let Ok(i) = i.parse::<usize>() {
+                        return !(field == "samples" && k1_eff.objects.get(i).is_some_and(|o| o.d21));
+                    }
+                }
+            }
+            true
+        });
+        if diffs.len() != before {
+            ctx.known("D21-node-sample-file-name-not-encoded", "a custom sample file name given in a slider's per-node bank field is accepted by the decoder but never written by the encoder (nodes are written with banks only)".into());
+        }
+        if diffs.is_empty() {
+            return true;
+        }
+    }
     // D20: a sample file name ending in whitespace is written at the end of the line, where the reader's
     // trailing trim removes the whitespace
     {
